@@ -267,7 +267,14 @@ fn sp_round(r: &Ref, s: Span, si: usize, li: usize, inc: i64, mi: usize, cls: &s
         Ref::Z(z) => guard(|| z.checked_add(s).map(|e| e.offset() != z.offset() || z.time_zone().following(z.timestamp().min(e.timestamp())).next().map_or(false, |t| t.timestamp() <= z.timestamp().max(e.timestamp()))).unwrap_or(false)).unwrap_or(false),
         _ => false,
     };
-    json!({"op":"sp_round","cls":cls,"hair": if hair {1} else {0},"dst_in_span": if dst_in_span {1} else {0},"zi":1,"ref":r.json(),"span":jspan(&s),"smallest":UNITS[si].1,"largest":UNITS[li].1,"inc":big(inc as i128),"mode":MODES[mi].1,
+    // tag for KNOWN_FINDINGS D44: a reference on day 29..31, where adding a month clamps
+    let refday = match r {
+        Ref::Z(z) => z.day(),
+        Ref::Dt(d) => d.day(),
+        Ref::D(d) => d.day(),
+        _ => 0,
+    };
+    json!({"op":"sp_round","cls":cls,"hair": if hair {1} else {0},"dst_in_span": if dst_in_span {1} else {0},"clamp": if refday >= 29 {1} else {0},"zi":1,"ref":r.json(),"span":jspan(&s),"smallest":UNITS[si].1,"largest":UNITS[li].1,"inc":big(inc as i128),"mode":MODES[mi].1,
            "mf":big(mf),"q":big(q as i128),"res":{"st":st,"span":jspan(&out)}})
 }
 
@@ -686,6 +693,25 @@ pub fn run_zoned(a: &Args, which: &str) {
                         c11_for_ref(&mut out, &mut rng, &Ref::Dt(dt), n / 6, "civil-datetime");
                         c11_for_ref(&mut out, &mut rng, &Ref::D(dt.date()), n / 12, "civil-date");
                     }
+                    // pinned cases: the inputs of the C11 findings (KNOWN_FINDINGS.txt D36, D38, D40, D44)
+                    {
+                        let d31 = jiff::civil::date(2024, 1, 31).at(0, 30, 0, 500_000_000);
+                        let d28 = jiff::civil::date(2023, 2, 28).at(23, 30, 0, 500_000_000);
+                        let d21 = jiff::civil::date(2021, 8, 31).at(0, 30, 0, 0);
+                        let sp = |u: [i64; 10], neg: bool| mkspan(u, neg).unwrap();
+                        for (mi, _) in MODES.iter().enumerate() {
+                            out.emit(sp_round(&Ref::Dt(d31), sp([0, 0, 0, 29, 23, 59, 0, 0, 0, 0], false), 4, 9, 15, mi, "pinned"));
+                            out.emit(sp_round(&Ref::Dt(d31), sp([0, 0, 0, 29, 23, 59, 0, 0, 0, 0], false), 5, 8, 1, mi, "pinned"));
+                            out.emit(sp_round(&Ref::Dt(d28), sp([0, 0, 0, 6, 23, 0, 0, 0, 0, 0], false), 6, 7, 1, mi, "pinned"));
+                            out.emit(sp_round(&Ref::D(d31.date()), sp([0, 12, 0, 0, 0, 0, 0, 0, 0, 0], false), 8, 9, 12, mi, "pinned"));
+                            out.emit(sp_round(&Ref::Dt(d21), sp([1648, 0, 0, 0, 0, 0, 0, 0, 0, 1], true), 9, 9, 1, mi, "pinned"));
+                            out.emit(sp_round(&Ref::Dt(d28), sp([0, 0, 0, 0, 36, 0, 0, 0, 0, 0], true), 6, 6, 1, mi, "pinned"));
+                        }
+                    }
+                    // that block fills several shards: the zone's own events start a new one, behind their zone events
+                    out.cut();
+                    out.emit(zone_slot(az, &src.class, 1));
+                    out.emit(zone_slot(az2, &src2.class, 2));
                 }
                 for &(ts, cls) in &insts {
                     c11_for_ref(&mut out, &mut rng, &Ref::Z(Zoned::new(ts, tz.clone())), if quick { 3 } else { 4 }, cls);
